@@ -167,6 +167,9 @@ func init() {
 			if k := i - ctx.N(18, 120) - 18; k >= 0 && k < 6 {
 				return selfRefTwinCase(k)
 			}
+			if k := i - ctx.N(18, 120) - 24; k >= 0 && k < 2 {
+				return caseIdentifierCase(k)
+			}
 			return nil
 		},
 		args: func(r *sg.Rng, root *sg.Schema) []string {
@@ -408,6 +411,12 @@ func init() {
 					return lenientFormatCase(k)
 				} else if k -= 5; k < 8 {
 					return percentNameCase(k)
+				} else if k -= 8; k < 4 {
+					return caseIdentifierCase(k)
+				} else if k -= 4; k < 8 {
+					c := extFieldCase(k)
+					c.Args = append(c.Args, "--extra-imports")
+					return c
 				}
 				return nil
 			}
@@ -2019,6 +2028,7 @@ func strataForC01(ctx *Ctx) []*sem.Case {
 	add(8, oddRequiredNameCase)
 	add(6, selfRefTwinCase)
 	add(12, mixinBranchCase)
+	add(2, caseIdentifierCase)
 	add(12, objectDefaultCase)
 	add(12, nullableDefCase)
 	add(16, nestedOverlapCase)
@@ -2399,5 +2409,49 @@ func mixinBranchCase(i int) *sem.Case {
 		}
 		c.Docs = append(c.Docs, docgen.Doc{V: jsonx.Obj{{K: "shipping", V: o}}, Class: "required", Label: "typed-control", Stated: st2})
 	}
+	return c
+}
+
+// caseIdentifierCase: goJSONSchema identifiers that only re-capitalize the property name (id -> ID, url -> URL, sku ->
+// SKU) next to one that renames it altogether: the Go field changes, the JSON / YAML key does not - both decoding
+// paths bind the document's key, check it and keep its value.
+func caseIdentifierCase(i int) *sem.Case {
+	ident := func(n string) jsonx.Obj { return jsonx.Obj{{K: "identifier", V: n}} }
+	root := &sg.Schema{Types: []string{"object"}, Required: []string{"id"}, Props: []sg.Prop{
+		{Name: "id", S: &sg.Schema{Types: []string{"string"}, MinLen: 1, Ext: ident("ID")}},
+		{Name: "sku", S: &sg.Schema{Types: []string{"string"}, MinLen: 3, Ext: ident("SKU")}},
+		{Name: "url", S: &sg.Schema{Types: []string{"string"}, Pattern: "^https?://", Ext: ident("URL")}},
+		{Name: "retries", S: &sg.Schema{Types: []string{"integer"}, Min: sg.Fp(0), Ext: ident("RETRIES")}},
+		{Name: "displayName", S: &sg.Schema{Types: []string{"string"}, MaxLen: 5, Ext: ident("Label")}},
+		{Name: "httpPort", S: &sg.Schema{Types: []string{"integer"}, Max: sg.Fp(65535), Ext: ident("HTTPPort")}},
+	}}
+	if i%2 == 1 {
+		nested := &sg.Schema{Types: []string{"object"}, Props: root.Props, Required: root.Required}
+		root = &sg.Schema{Types: []string{"object"}, Props: []sg.Prop{{Name: "item", S: nested}, {Name: "items", S: &sg.Schema{Types: []string{"array"}, Items: nested}}}}
+	}
+	c := &sem.Case{Root: root, Sig: fmt.Sprintf("case-identifier/%d", i%2), NoAuto: true, Args: []string{"--extra-imports"}}
+	wrap := func(o jsonx.Obj) jsonx.Obj {
+		if i%2 == 1 {
+			return jsonx.Obj{{K: "item", V: o}, {K: "items", V: []any{o}}}
+		}
+		return o
+	}
+	full := jsonx.Obj{{K: "id", V: "abc-1"}, {K: "sku", V: "SKU-9"}, {K: "url", V: "https://x"}, {K: "retries", V: jsonx.N(2)}, {K: "displayName", V: "Ann"}, {K: "httpPort", V: jsonx.N(8080)}}
+	c.Docs = append(c.Docs, docgen.Doc{V: wrap(full), Class: "valid", Label: "all"}, docgen.Doc{V: wrap(jsonx.Obj{{K: "id", V: "i"}}), Class: "valid", Label: "minimal"})
+	for _, f := range []struct {
+		k, class string
+		v        any
+	}{{"sku", "string", "ab"}, {"url", "string", "ftp://x"}, {"retries", "bound", jsonx.N(-1)}, {"displayName", "string", "toolong"}, {"httpPort", "bound", jsonx.N(70000)}, {"id", "string", ""}} {
+		o := jsonx.Obj{}
+		for _, kv := range full {
+			if kv.K == f.k {
+				o = append(o, jsonx.KV{K: f.k, V: f.v})
+			} else {
+				o = append(o, kv)
+			}
+		}
+		c.Docs = append(c.Docs, docgen.Doc{V: wrap(o), Class: f.class, Label: "single-fault"})
+	}
+	c.Docs = append(c.Docs, docgen.Doc{V: wrap(jsonx.Obj{{K: "sku", V: "SKU-9"}}), Class: "required", Label: "no-id"})
 	return c
 }
